@@ -39,7 +39,7 @@ func (c08) Gen(r *rand.Rand, tier string, run int) *core.Case {
 	c.Sim = zzsim.Config{AuxSeed: r.Uint64()}
 	n := 4 + r.IntN(5)
 	for i := 0; i < n; i++ {
-		c.Ops = append(c.Ops, core.Op{Kind: c08kinds[r.IntN(len(c08kinds))], X: int64(r.Uint64() >> 1), Y: int64(r.IntN(6))})
+		c.Ops = append(c.Ops, core.Op{Kind: c08kinds[r.IntN(len(c08kinds))], X: int64(r.Uint64() >> 1), Y: int64(r.IntN(7))})
 	}
 	return c
 }
@@ -58,6 +58,13 @@ type gvOuter struct {
 	B  bool
 	V  []gvInner
 	T  probe.Token
+}
+
+type gvPtr struct {
+	A int32
+	P *int32
+	S *string
+	I *gvInner
 }
 
 type gvPair struct {
@@ -188,6 +195,11 @@ func c08build(kind string, r *rand.Rand, variant int) (enc []byte, dec c08decode
 				o.V = append(o.V, inner())
 			}
 			x = &o
+		case 6:
+			// fields that are pointers: the encoder writes what they point
+			// to, a fresh value has them nil
+			n, str, in := int32(r.Uint32()), g.Str(), inner()
+			x = &gvPtr{A: int32(r.Uint32()), P: &n, S: &str, I: &in}
 		case 4, 5:
 			// a struct type nobody has decoded before in this process (the name
 			// of its fields comes from the case), so that whatever the decoder
